@@ -1,3 +1,18 @@
 import BU.Properties.C04
+import BU.Properties.C04_Gen
 #print axioms C04.segwit_digest_eq_bip143
 #print axioms C04.ignores_scriptsigs_witnesses
+#print axioms C04Gen.loop_prevouts
+#print axioms C04Gen.loop_sequences
+#print axioms C04Gen.outBody_spec
+#print axioms C04Gen.loop_outputs4
+#print axioms C04Gen.listGet_map
+#print axioms C04Gen.tail_eq
+#print axioms C04Gen.beq_cast
+#print axioms C04Gen.bne_cast
+#print axioms C04Gen.land31
+#print axioms C04Gen.land240
+#print axioms C04Gen.zeros_eq
+#print axioms C04Gen.map_bind
+#print axioms C04Gen.gen_segwit_digest
+#print axioms C04Gen.gen_segwit_digest_eq_bip143
